@@ -103,9 +103,14 @@ class Rx:
                 c = s_and(c, s_not(t) if neg else t)
         return c
 
-    def finditer(self, seq):
+    def finditer(self, seq, pos=0, endpos=None):
+        """re semantics: endpos truncates the string (a look-ahead cannot see beyond it), pos only
+        moves the start of the search (a look-behind still sees the characters before it)."""
         s = str.__str__(seq)
-        for i in range(len(s)):
+        if endpos is not None:
+            s = s[:max(int(endpos), 0)] if int(endpos) >= 0 else s[:0]
+        start = max(int(pos), 0)
+        for i in range(start, len(s)):
             c = self.cond(s, i)
             if c if isinstance(c, bool) else bool(c):
                 yield Match(i, i + 1)
